@@ -462,6 +462,21 @@ class Q:
     def __float__(self):
         return self.const_value()
 
+    def astype(self, dtype, *a, **k):
+        """numpy-scalar protocol: a 0-d measure value cast to float stays symbolic"""
+        import numpy as _np
+        if _np.dtype(dtype).kind == "f":
+            return self
+        return _np.dtype(dtype).type(self.const_value())
+
+    @property
+    def shape(self):
+        return ()
+
+    @property
+    def ndim(self):
+        return 0
+
     def __int__(self):
         v = self.const_value()
         return int(v)
